@@ -290,6 +290,23 @@ func c06Excluded(c c06Case) string {
 	return ""
 }
 
+// c06Revisits reports whether some build step uses a configuration that an
+// earlier build step of the history used (the non-triviality rule of c06Run).
+func c06Revisits(steps []c06Step) bool {
+	seen := map[string]bool{}
+	for _, s := range steps {
+		if s.Op != "build" {
+			continue
+		}
+		k := c06Config(s.Cfg).Key()
+		if seen[k] {
+			return true
+		}
+		seen[k] = true
+	}
+	return false
+}
+
 func TestC06(t *testing.T) {
 	rc.Check(t, func(t *rapid.T) {
 		var c c06Case
@@ -306,6 +323,12 @@ func TestC06(t *testing.T) {
 				s.Op = "build"
 			}
 			s.Cfg = rapid.SampledFrom([]string{"default", "default", "tiny", "tiny", "literals", "literals", "seed", "seed2", "seed2", "seed3", "seed3", "literals+tiny", "ctrlflow", "ctrlflow", "ctrlflow", "modonly", "modonly", "gg1", "gg1", "gg2", "gg2"}).Draw(t, "cfg")
+			// one build in three goes back to the configuration of an earlier step of this history
+			back := rapid.IntRange(0, 3*max(i, 1)-1).Draw(t, "back")
+			revisit := i > 0 && back < i && c.Steps[back].Op == "build"
+			if revisit {
+				s.Cfg = c.Steps[back].Cfg
+			}
 			if !progen.PendingEnabled() {
 				// configurations not yet validated on the unchanged tree (DESIGN.md 10.10) fall back to the first set
 				if alt, ok := map[string]string{"ctrlflow": "default", "modonly": "tiny", "gg1": "literals", "gg2": "seed"}[s.Cfg]; ok {
@@ -338,6 +361,17 @@ func TestC06(t *testing.T) {
 				}
 			}
 			break
+		}
+		// Every history builds some configuration a second time: when no drawn
+		// build does, a closing build of the first configuration is appended
+		// (its flags are drawn either way, so that the draw sequence does not
+		// depend on the outcome).
+		closing := c06Step{Op: "build", Cfg: c.Steps[0].Cfg}
+		closing.Tag = rapid.IntRange(0, 3).Draw(t, "closing tag") == 0
+		closing.LdX = rapid.IntRange(-1, 3).Draw(t, "closing ldx")
+		if !c06Revisits(c.Steps) {
+			c.Steps = append(c.Steps, closing)
+			stats.Label("closing-build-appended")
 		}
 		if k := c06Excluded(c); k != "" {
 			// keep the history but take the listed combination out of it
